@@ -1147,6 +1147,8 @@ func lemmaRawAllIsRenderAll(last, mid branchFormat, roots []*Node, i int) {
 //@ ghost var libWriter any
 //@ ghost var libFailed bool
 //@ ghost var libCalls int
+// libReader: the reader the last From-Markdown library call was given
+//@ ghost var libReader any
 // lastCtxLive: the context the last library call ran under had not been cancelled when the call was made (massive mode)
 //@ ghost var lastCtxLive bool
 
@@ -1166,11 +1168,12 @@ func lemmaRawAllIsRenderAll(last, mid branchFormat, roots []*Node, i int) {
 //@   param callback follows walkCallback
 
 //@ contract fromMarkdownOutput
-//@   modifies Node.children, Node.parent, Node.brnch.value, Node.brnch.path, list.List.view, list.Element.backOf, counter.n, bufio.Scanner.pos, bufio.Scanner.failed, markdown.Parser.isSharpRoot, markdown.Parser.spaces, markdown.Parser.sep, out, wfail, defaultSpreaderSimple.w, encTrace, encoders, libWriter, libFailed, libCalls, lastCtxLive, lastConfig, lastForest, lnNodes, rsRoots, rsFailed, rsStopped, rsErr, gsRoots, gsFailed, gsStopped, gsErr, spRoots, spText, dryRoots, esFailed, errSent, stageSpread, stageWriter, ctxCancelled, splSent, lnRootCount, lnRejected, splSharp, splCutOK, ctxDoneSeen, gcRecv, rcRecv, gcSent, errRecv
+//@   modifies Node.children, Node.parent, Node.brnch.value, Node.brnch.path, list.List.view, list.Element.backOf, counter.n, bufio.Scanner.pos, bufio.Scanner.failed, markdown.Parser.isSharpRoot, markdown.Parser.spaces, markdown.Parser.sep, out, wfail, defaultSpreaderSimple.w, encTrace, encoders, libWriter, libFailed, libCalls, libReader, lastCtxLive, lastConfig, lastForest, lnNodes, rsRoots, rsFailed, rsStopped, rsErr, gsRoots, gsFailed, gsStopped, gsErr, spRoots, spText, dryRoots, esFailed, errSent, stageSpread, stageWriter, ctxCancelled, splSent, lnRootCount, lnRejected, splSharp, splCutOK, ctxDoneSeen, gcRecv, rcRecv, gcSent, errRecv
 //@   ghostset lastConfig := cfg
 //@   ghostset libWriter := w
 //@   ghostset libFailed := old(libFailed) || result != nil
 //@   ghostset libCalls := old(libCalls) + 1
+//@   ghostset libReader := r
 //@   ghostset lastCtxLive := old(!specHasOpt(options, optKMassive, len(options)) || specLastCtx(options, len(options)) == specBg() || !ctxCancelled[specLastCtx(options, len(options))])
 //@   ensures render [C01,C03,C12,C14,C17]: fresh(lastConfig) && (!lastConfig.massive && lastConfig.encode == encodeDefault && !lastConfig.dryrun && result == nil ==> (old(wfail) || !wfail) && (lastConfig.noUseIterOfSimpleOutput ==> (allRoots(lastForest) && out[w] == old(out[w]) ++ specRenderAll(lastConfig.lastNodeFormat, lastConfig.intermedialNodeFormat, lastForest, len(lastForest)))) && (!lastConfig.noUseIterOfSimpleOutput ==> out[w] == old(out[w]) ++ spText && spRoots == rsRoots && !rsFailed))
 //@   ensures dryfs [C09]: fsOps == old(fsOps) && fsFailed == old(fsFailed)
@@ -1506,10 +1509,11 @@ func fsExistsAt(p string) bool { _, err := os.Stat(p); return !os.IsNotExist(err
 //@   requires nn: root != nil && root.hierarchy == 1
 
 //@ contract fromMarkdownMkdir
-//@   modifies Node.children, Node.parent, Node.brnch.value, Node.brnch.path, list.List.view, list.Element.backOf, counter.n, bufio.Scanner.pos, bufio.Scanner.failed, markdown.Parser.isSharpRoot, markdown.Parser.spaces, markdown.Parser.sep, fsOps, fsFailed, defaultGrowerSimple.enabledValidation, libFailed, libCalls, lastCtxLive, lastConfig, lastForest, lnNodes, errSent, mkSeen, ctxCancelled, splSent, lnRootCount, lnRejected, splSharp, splCutOK, ctxDoneSeen, gcRecv, rcRecv, gcSent, errRecv
+//@   modifies Node.children, Node.parent, Node.brnch.value, Node.brnch.path, list.List.view, list.Element.backOf, counter.n, bufio.Scanner.pos, bufio.Scanner.failed, markdown.Parser.isSharpRoot, markdown.Parser.spaces, markdown.Parser.sep, fsOps, fsFailed, defaultGrowerSimple.enabledValidation, libFailed, libCalls, libReader, lastCtxLive, lastConfig, lastForest, lnNodes, errSent, mkSeen, ctxCancelled, splSent, lnRootCount, lnRejected, splSharp, splCutOK, ctxDoneSeen, gcRecv, rcRecv, gcSent, errRecv
 //@   ghostset lastConfig := cfg
 //@   ghostset libFailed := old(libFailed) || result != nil
 //@   ghostset libCalls := old(libCalls) + 1
+//@   ghostset libReader := r
 //@   ghostset lastCtxLive := old(!specHasOpt(options, optKMassive, len(options)) || specLastCtx(options, len(options)) == specBg() || !ctxCancelled[specLastCtx(options, len(options))])
 //@   ensures mkdir [C06,C12]: fresh(lastConfig) && (!lastConfig.massive && lastConfig.encode == encodeDefault && result == nil ==> fsFailed == old(fsFailed) && (allRoots(lastForest) && !specAnyRootExists((len(lastConfig.targetDir) != 0 ? lastConfig.targetDir : "."), lastForest, 0) && fsOps == old(fsOps) ++ specMkOpsAll((len(lastConfig.targetDir) != 0 ? lastConfig.targetDir : "."), lastConfig.fileExtensions, lastForest, len(lastForest))))
 //@   ensures validated [C07,C12]: fresh(lastConfig) && (!lastConfig.massive && lastConfig.encode == encodeDefault && fsOps != old(fsOps) ==> ((forall k int :: {lastForest[k]} 0 <= k && k < len(lastForest) ==> validated(lastForest[k]))))
@@ -1693,10 +1697,11 @@ func specVerifyText(strict bool, extra, noExists []string) string {
 //@   requires nn: root != nil && root.hierarchy == 1
 
 //@ contract fromMarkdownVerify
-//@   modifies Node.children, Node.parent, Node.brnch.value, Node.brnch.path, list.List.view, list.Element.backOf, counter.n, bufio.Scanner.pos, bufio.Scanner.failed, markdown.Parser.isSharpRoot, markdown.Parser.spaces, markdown.Parser.sep, defaultGrowerSimple.enabledValidation, maps, libFailed, libCalls, lastCtxLive, lastConfig, lastForest, lnNodes, errSent, vfSeen, ctxCancelled, splSent, lnRootCount, lnRejected, splSharp, splCutOK, ctxDoneSeen, gcRecv, rcRecv, gcSent, errRecv
+//@   modifies Node.children, Node.parent, Node.brnch.value, Node.brnch.path, list.List.view, list.Element.backOf, counter.n, bufio.Scanner.pos, bufio.Scanner.failed, markdown.Parser.isSharpRoot, markdown.Parser.spaces, markdown.Parser.sep, defaultGrowerSimple.enabledValidation, maps, libFailed, libCalls, libReader, lastCtxLive, lastConfig, lastForest, lnNodes, errSent, vfSeen, ctxCancelled, splSent, lnRootCount, lnRejected, splSharp, splCutOK, ctxDoneSeen, gcRecv, rcRecv, gcSent, errRecv
 //@   ghostset lastConfig := cfg
 //@   ghostset libFailed := old(libFailed) || result != nil
 //@   ghostset libCalls := old(libCalls) + 1
+//@   ghostset libReader := r
 //@   ghostset lastCtxLive := old(!specHasOpt(options, optKMassive, len(options)) || specLastCtx(options, len(options)) == specBg() || !ctxCancelled[specLastCtx(options, len(options))])
 //@   ensures fsframe [C08,C12]: fsOps == old(fsOps) && fsFailed == old(fsFailed)
 //@   ensures wired [C16]: lastConfig.strictVerify == specHasOpt(options, optKStrict, len(options)) && lastConfig.dryrun == specHasOpt(options, optKDry, len(options)) && lastConfig.massive == specHasOpt(options, optKMassive, len(options)) && lastConfig.targetDir == specLastOptStr(options, optKTarget, len(options), ".") && lastConfig.fileExtensions == specLastOptStrs(options, optKExt, len(options), nil) && lastConfig.encode == specLastEncode(options, len(options))
